@@ -22,7 +22,7 @@ ASSUMPTIONS = [
     "cron recurrence not exercised (croniter absent); recurrence via deferred_by",
 ]
 EVAL_COUNTER = "deliveries_judged"
-REQUIRED = ["deliveries_judged", "exp_ack", "exp_nack", "exp_retry", "exp_reschedule", "exp_eager", "sentinels_acked", "cells_with_unencodable_return", "runs_on_the_default_connection", "redeliveries_compared", "runs_without_a_results_broker", "unprintable_failures_judged"]
+REQUIRED = ["deliveries_judged", "exp_ack", "exp_nack", "exp_retry", "exp_reschedule", "exp_eager", "sentinels_acked", "cells_with_unencodable_return", "runs_on_the_default_connection", "redeliveries_compared", "runs_without_a_results_broker", "unprintable_failures_judged", "cells_whose_argument_bucket_is_gone"]
 CASE_TIMEOUT = 120
 
 EAGER = ("ack", "nack", "reject", "retry", "force_retry", "reschedule")
@@ -32,7 +32,7 @@ PERIOD = 3.0
 
 
 def all_cells():
-    outs = ["ok"] + [f"raise:{e}" for e in FAIL_EXC] + ["timeout", "badpayload", "depfail"]
+    outs = ["ok"] + [f"raise:{e}" for e in FAIL_EXC] + ["timeout", "badpayload", "depfail", "lostargs"]
     # the actor returns normally, but a value its converter cannot encode: a failed execution like any other
     outs += [f"badret:{w}" for w in ("set", "bytes", "object", "tuple_key", "complex", "nested")]
     for a in EAGER:
@@ -48,7 +48,7 @@ def all_cells():
             continue
         if pos == "last" and N == 0:
             continue
-        if o in ("badpayload", "depfail") and pos != "first":
+        if o in ("badpayload", "depfail", "lostargs") and pos != "first":
             continue
         if o.startswith("depeager") and (pos != "first" or (o.endswith(":retry") and N == 0)):
             continue
@@ -75,7 +75,8 @@ def gen_cases(tier, seed):
             i += n
 
     if tier == "quick":
-        groups(rnd.sample(cells, 420), "mem", "basic")
+        forced = [c for c in cells if c["o"] in ("lostargs", "raise:Unprintable") and c["pos"] == "first"]
+        groups(rnd.sample(cells, 420) + [dict(c) for c in forced], "mem", "basic")
         groups(rnd.sample(cells, 160), "mem", "pydantic")
         groups(rnd.sample(cells, 90), "redis", "basic")
         groups(rnd.sample(cells, 90), "rabbit", "basic")
@@ -107,7 +108,7 @@ def build_script(cell):
         steps.append({"do": "badret", "what": o.split(":")[1]})
     elif o == "timeout":
         steps.append({"do": "ok", "d": 5.0})
-    elif o in ("badpayload", "depfail"):
+    elif o in ("badpayload", "depfail", "lostargs"):
         steps.append({"do": "ok"})
     elif o.startswith("depeager"):
         return {"eager_in_dep": o.split(":")[1]}
@@ -140,7 +141,7 @@ def build_script(cell):
 def classify_step(cell, st, attempt):
     """-> ('ok'|'fail'|'eager', action)"""
     o = cell["o"]
-    if o in ("badpayload", "depfail"):
+    if o in ("badpayload", "depfail", "lostargs"):
         return ("fail", None)
     if st["do"] == "ok":
         if st.get("d", 0) > 1.0:
@@ -232,6 +233,11 @@ async def scenario(loop, case, out, stats, fps, samples):
             if cell["rec"]:
                 kw["deferred_by"] = timedelta(seconds=PERIOD)
             await w.job(name, id_, cell["_script"], **kw).enqueue()
+            if cell["o"] == "lostargs":
+                # the arguments were put into the args bucket store, and that bucket is gone by the time the message is
+                # delivered (expired, deleted): the actor cannot be called - a failed execution like any other
+                await w.conn.args_bucket_broker.delete_bucket(f"args-{id_}")
+                stats["cells_whose_argument_bucket_is_gone"] += 1
         nsent = 3
         for i in range(nsent):
             await w.job("act", f"s{i}", {"do": "ok"}, timeout=timedelta(seconds=1), store_result=False,
@@ -284,10 +290,12 @@ async def scenario(loop, case, out, stats, fps, samples):
                         break
             nth_by_attempt = collections.Counter()
             for n, s in enumerate(segs):
-                no_actor = cell["o"] in ("badpayload", "depfail") or cell["o"].startswith("depeager")
+                no_actor = cell["o"] in ("badpayload", "depfail", "lostargs") or cell["o"].startswith("depeager")
                 if s["starts"] or (cell["o"].startswith("depeager") and s["disp"]):
                     nth_by_attempt[s["tried"]] += 1
-                if s["starts"] == 0 and not s["disp"] and not (no_actor and n < len(segs) - 1):
+                # (a delivery that never reaches an actor - payload refused, provider failing, arguments gone - is over within
+                # moments: one that got no answer although the worker went on for another second is judged like any other)
+                if s["starts"] == 0 and not s["disp"] and not (no_actor and (n < len(segs) - 1 or s["t"] < info["t_stop"] - 1.0)):
                     stats["deliveries_not_started"] += 1
                     continue
                 a = s["tried"]
